@@ -21,6 +21,12 @@ class UE2(UE):
         self.a = a
 class UK(KeyError, UE):
     pass
+class Mixin:
+    tag = 'mixin'
+class UM(Mixin, ValueError):
+    pass
+class UM2(Mixin, UE, IndexError):
+    pass
 class CM:
     def __init__(self, tag, sup):
         self.tag = tag
@@ -95,7 +101,7 @@ type c02Ctx struct {
 func (c *c02Gen) nid() int { c.id++; return c.id }
 
 var c02Raises = []string{"KeyError", "IndexError", "ZeroDivisionError", "ValueError", "TypeError", "KeyError('x')", "ValueError(1, 2)",
-	"LookupError", "ArithmeticError", "Exception", "RuntimeError('r')", "BaseException", "UE", "UE('u')", "UE2(5)", "UK('k')", "UK"}
+	"LookupError", "ArithmeticError", "Exception", "RuntimeError('r')", "BaseException", "UE", "UE('u')", "UE2(5)", "UK('k')", "UK", "UM('m')", "UM", "UM2(2)"}
 var c02RaiseExprs = []string{"1 // 0", "[][0]", "{}['x']", "int('z')", "None.a", "undefined_name"}
 
 func (c *c02Gen) exitAction(cx c02Ctx) string {
@@ -224,9 +230,9 @@ func (c *c02Gen) block(cx c02Ctx, minStmts int) string {
 				var head string
 				switch g.Weighted(3, 2, 2, 1, 1) {
 				case 0:
-					head = "except " + g.Str("KeyError", "IndexError", "ZeroDivisionError", "ValueError", "TypeError", "LookupError", "ArithmeticError", "Exception", "NameError", "AttributeError", "RuntimeError", "UE", "UE2", "UK") + ":"
+					head = "except " + g.Str("KeyError", "IndexError", "ZeroDivisionError", "ValueError", "TypeError", "LookupError", "ArithmeticError", "Exception", "NameError", "AttributeError", "RuntimeError", "UE", "UE2", "UK", "UM", "UM2") + ":"
 				case 1:
-					head = "except (" + g.Str("KeyError", "IndexError", "ZeroDivisionError", "UE2") + ", " + g.Str("ValueError", "TypeError", "LookupError", "UK") + "):"
+					head = "except (" + g.Str("KeyError", "IndexError", "ZeroDivisionError", "UE2") + ", " + g.Str("ValueError", "TypeError", "LookupError", "UK", "UM") + "):"
 				case 2:
 					head = "except " + g.Str("KeyError", "LookupError", "Exception", "ValueError", "BaseException", "UE") + " as e:"
 					c.kinds["except-as"] = true
